@@ -111,10 +111,26 @@ def fullKey (topo : List (Nat × List Nat)) (r : RS) : String :=
     ",".intercalate (r.flights.map fun f => showEv (.msg f.m f.src f.dst f.o)) ++ "|" ++
     ",".intercalate (r.timers.map fun t => showEv (.timer t.proc t.name t.delay))
 
+/-- the flight at `i` is the oldest among the flights with the same (message, sender, receiver) AND the same remaining delivery
+    options: what the identical-message reduction may assume interchangeable (finding D17: the checker's reduction looks at the
+    triple only) -/
+def oldestIdenticalOpts (r : RS) (i : Nat) : Bool :=
+  match r.flights[i]? with
+  | Option.none => false
+  | some f => (r.flights.take i).all (fun g => !(decide (g.m = f.m) && g.src == f.src && g.dst == f.dst && decide (g.o = f.o)))
+
+def enabledRelaxed (r : RS) (mode : Mode) : Label → Bool
+  | .fire j => r.enabledRed mode (.fire j)
+  | .deliver i => oldestIdenticalOpts r i
+  | .drop i => oldestIdenticalOpts r i
+  | .dup i => oldestIdenticalOpts r i
+  | .corrupt i => oldestIdenticalOpts r i
+
 /-- depth-first enumeration of every reduced-enabled run; predicates in `check_state` order.  With `dedupe` (predicates that
     do not depend on the depth) a reference state reached again is not expanded again. -/
 partial def refEnum (h : Handler PState) (mode : Mode) (topo : List (Nat × List Nat))
-    (inv goal prune : RS → Nat → Bool) (cap : Nat) (r : RS) (depth : Nat) (acc : EnumOut) (dedupe : Bool := false) : EnumOut :=
+    (inv goal prune : RS → Nat → Bool) (cap : Nat) (r : RS) (depth : Nat) (acc : EnumOut) (dedupe : Bool := false)
+    (relax : Bool := false) : EnumOut :=
   if acc.capped || acc.failed then acc else
   if acc.count ≥ cap then { acc with capped := true } else
   let key := if dedupe then fullKey topo r else ""
@@ -127,9 +143,9 @@ partial def refEnum (h : Handler PState) (mode : Mode) (topo : List (Nat × List
   else if r.flights.isEmpty && r.timers.isEmpty then { acc with failed := true }
   else
     (allLabels r).foldl (fun acc l =>
-      if r.enabledRed mode l then
+      if (if relax then enabledRelaxed r mode l else r.enabledRed mode l) then
         match r.step h l with
-        | some r' => refEnum h mode topo inv goal prune cap r' (depth + 1) acc dedupe
+        | some r' => refEnum h mode topo inv goal prune cap r' (depth + 1) acc dedupe relax
         | Option.none => acc
       else acc) acc
 
